@@ -119,6 +119,10 @@ pub fn install_panic_hook() {
         } else {
             "<non-string panic payload>".to_string()
         };
+        if !IN_CASE.load(Relaxed) {
+            // a panic outside a monitored case is a harness error: show it
+            eprintln!("pvh: harness panic at {loc}: {msg}");
+        }
         if let Ok(mut g) = LAST_PANIC.lock() {
             *g = Some(format!("panic at {loc}: {msg}"));
         }
